@@ -118,17 +118,17 @@ theorem spec_tableFor_ok (ch : Choices) (os : List Object) (ob : Object) (hob : 
 
 /-- all table entries respect the string limit -/
 theorem spec_tableFor_short (ch : Choices) (hch : ChoicesOk ch) (os : List Object)
-    (hs : ∀ ob ∈ os, ∀ s ∈ PbfSpec.stringsOf ob, s.length ≤ 1024) :
-    ∀ s ∈ PbfSpec.tableFor ch os, s.length ≤ 1024 := by
+    (hs : ∀ ob ∈ os, ∀ s ∈ PbfSpec.stringsOf ob, StrOk s) :
+    ∀ s ∈ PbfSpec.tableFor ch os, StrOk s := by
   intro s h
-  have hu : ∀ s ∈ os.flatMap PbfSpec.stringsOf, s.length ≤ 1024 := by
+  have hu : ∀ s ∈ os.flatMap PbfSpec.stringsOf, StrOk s := by
     intro s h
     obtain ⟨ob, hob, hsob⟩ := List.mem_flatMap.1 h
     exact hs ob hob s hsob
   unfold PbfSpec.tableFor at h
   simp only [List.cons_append, List.mem_cons, List.mem_append] at h
   rcases h with h | (h | h) | h
-  · simp [h]
+  · rw [h]; exact strOk_nil
   · exact hch.pad s h
   · exact hu s h
   · split at h
